@@ -11,11 +11,11 @@ CLAIMED = {
             "Trusts the harness's own model of the rules (written from the property statement) and the struct-literal construction route (components injected with reflect/unsafe, P2 nonce containers through eat.Nonce's decoder).",
             "DESIGN.md §4 C01"),
     "C02": ("complete single-bit-flip sweeps + rapid splices/truncations/edits/wrong keys; independent COSE field splitter decides which mutants must not verify",
-            "Generated-input search over mutated tokens: for tokens signed with each of the 7 algorithms every single-bit flip is tried (complete sweep for the fast algorithms in quick, all in thorough), plus random splices of protected/payload/signature content between tokens, truncations, multi-byte edits, foreign signatures, envelopes lacking alg/payload/signature, and every wrong-key pairing. A mutant whose protected, payload or signature content differs (as split by an independent CBOR reader) must fail to decode or fail to verify. Exploration: the mutation space is unbounded; the single-bit neighbourhood is enumerated. Also: equivalent-but-different re-encodings of the covered bytes, content appended/cut with adjusted length, re-spellings of the signature (DER, padding), the genuine token with its payload removed, and all payload-/alg-/signature-less messages given to an Evidence that previously held the genuine token; thorough adds a coverage-guided fuzz target with the same oracle. Unsigned claims in 16 other containers (UCCS/CWT tags, Mac0, COSE_Sign, missing/empty signature) next to the genuine header and signature never verify.",
+            "Generated-input search over mutated tokens: for tokens signed with each of the 7 algorithms every single-bit flip is tried (complete sweep for the fast algorithms in quick, all in thorough), plus random splices of protected/payload/signature content between tokens, truncations, multi-byte edits, foreign signatures, envelopes lacking alg/payload/signature, and every wrong-key pairing. A mutant whose protected, payload or signature content differs (as split by an independent CBOR reader) must fail to decode or fail to verify. Exploration: the mutation space is unbounded; the single-bit neighbourhood is enumerated. Also: equivalent-but-different re-encodings of the covered bytes, content appended/cut with adjusted length, re-spellings of the signature (DER, padding), the genuine token with its payload removed, and all payload-/alg-/signature-less messages given to an Evidence that previously held the genuine token; thorough adds a coverage-guided fuzz target with the same oracle. Unsigned claims in 16 other containers (UCCS/CWT tags, Mac0, COSE_Sign, missing/empty signature) next to the genuine header and signature never verify. A decoded altered token is also used (SetClaims of its own claims, reads, other keys) before a second verification attempt.",
             "Trusts the independent splitter (icbor/icose) to say which bytes the signature covers; ECDSA malleability (r, n-s) is outside the property and not generated.",
             "DESIGN.md §4 C02"),
     "C03": ("rapid round trips over valid claims x 7 algorithms x keys, checked by an independent COSE parser and independent signature verifier",
-            "Generated-input search: valid claims-sets of both profiles (all optional subsets, hash sizes, 1..4 components) are signed with every algorithm go-cose supports; the token is parsed by the harness's own CBOR reader (tag 18, 4-array, protected = {1: alg}, payload byte-identical to the validated encoding), verified by the harness's own crypto/* based verifier, then decoded and verified by the library and compared claim for claim. Exploration: inputs are unbounded. Signing is also done on Evidence objects with a past (signed/decoded with another algorithm, failed calls), with ECDSA algorithm/curve mixes, with unrelated encodes between signing and checking; decoded claims must re-encode to exactly the signed payload; a failed second decode must not leave the first token's claims under the second token's signature. A candidate-key loop (several wrong keys, then the right one) must end in success with the claims unchanged.",
+            "Generated-input search: valid claims-sets of both profiles (all optional subsets, hash sizes, 1..4 components) are signed with every algorithm go-cose supports; the token is parsed by the harness's own CBOR reader (tag 18, 4-array, protected = {1: alg}, payload byte-identical to the validated encoding), verified by the harness's own crypto/* based verifier, then decoded and verified by the library and compared claim for claim. Exploration: inputs are unbounded. Signing is also done on Evidence objects with a past (signed/decoded with another algorithm, failed calls), with ECDSA algorithm/curve mixes, with unrelated encodes between signing and checking; decoded claims must re-encode to exactly the signed payload; a failed second decode must not leave the first token's claims under the second token's signature. A candidate-key loop (several wrong keys, then the right one) must end in success with the claims unchanged. Byte-string claims may contain CBOR-looking fragments (profile keys followed by well-formed heads).",
             "Trusts crypto/ecdsa, ed25519 and rsa-PSS from the Go standard library and the harness's Sig_structure builder.",
             "DESIGN.md §4 C03"),
     "C04": ("exhaustive per-key x wire-class sweep + rapid products of rule-level and wire-level deviations, tokens built by an independent CBOR encoder; independent conformance model + wire-fidelity oracle; known-finding classifiers",
@@ -23,11 +23,11 @@ CLAIMED = {
             "Encodings the specifications leave open (tags, duplicate keys, one-element nonce array, flag != 1, non-preferred heads, explicit empty list next to the flag, tokens whose profile claim was disturbed while the other profile's keys are mixed in) get no accept/reject verdict.",
             "DESIGN.md §4 C04"),
     "C05": ("complete enumeration of tiny inputs, every-node x every-mutation sweeps, truncation/substitution sweeps, rapid multi-mutants, native go fuzzing (thorough); oracle = recover() around decode + full use of the result",
-            "Generated-input search over byte strings for 35 decoding entry points (COSE evidence, claims CBOR/JSON with and without validation, the per-type unmarshal methods incl. two extension types, populate helpers with flat/embedded/interface-embedded destinations): ALL strings of length <= 3 and a structured 4-byte family, every node of 10 base documents replaced by ~50 other items or structurally mutated, every truncation and header-byte substitution of all vectors, tens of thousands of random multi-mutants; whatever decodes without error is then validated, read through every getter, re-encoded and verified with 10 kinds of key. Any panic (or runtime fatal error) is a violation. Exploration: the input space is all byte strings. After the calls made for every input a canary battery of ordinary operations on unrelated values must not panic (state left by failed calls); both profile claims are set to every pair of pool items. Every text item is swept over 43 lengths x six character widths (incl. an invalid byte), and COSE header parameters over 54 labels x 52 values x both buckets.",
+            "Generated-input search over byte strings for 35 decoding entry points (COSE evidence, claims CBOR/JSON with and without validation, the per-type unmarshal methods incl. two extension types, populate helpers with flat/embedded/interface-embedded destinations): ALL strings of length <= 3 and a structured 4-byte family, every node of 10 base documents replaced by ~50 other items or structurally mutated, every truncation and header-byte substitution of all vectors, tens of thousands of random multi-mutants; whatever decodes without error is then validated, read through every getter, re-encoded and verified with 10 kinds of key. Any panic (or runtime fatal error) is a violation. Exploration: the input space is all byte strings. After the calls made for every input a canary battery of ordinary operations on unrelated values must not panic (state left by failed calls); both profile claims are set to every pair of pool items. Every text item is swept over 43 lengths x six character widths (incl. an invalid byte), and COSE header parameters over 54 labels x 52 values x both buckets. Signature shapes (DER with integers of many sizes, raw strings of many lengths) under nine algorithm ids, the whole text pool in every text item, and documents with two members changed at once are enumerated.",
             "Only panics are judged, not verdicts. Malformed Go key objects (wrong-length ed25519 keys) are outside 'any key'.",
             "DESIGN.md §4 C05"),
     "C06": ("enumerated header bombs / nesting / oversize documents and rapid mutants measured (TotalAlloc delta, wall time) in an address-space-limited single-goroutine worker process; native fuzzing with the allocation oracle in the target (thorough)",
-            "Generated-input search over inputs <= 64 KiB: every major type x additional-info x declared length x 0..16 following bytes at 20 structural positions, nesting to depth 32000 (CBOR) / 65536 (JSON), long strings, many-key maps; each call's allocation must stay below 1 MiB + 1 KiB per input byte and return within 5 s; worker death by out-of-memory is attributed to the in-flight input. Exploration. Tag-wrapped documents (42 tag numbers, 1..3 deep), nesting hidden inside byte strings, distinct-duplicate member names and error-path documents followed by ordinary ones are included; a hang that only shows after earlier inputs is replayed as a sequence in a fresh worker.",
+            "Generated-input search over inputs <= 64 KiB: every major type x additional-info x declared length x 0..16 following bytes at 20 structural positions, nesting to depth 32000 (CBOR) / 65536 (JSON), long strings, many-key maps; each call's allocation must stay below 1 MiB + 1 KiB per input byte and return within 5 s; worker death by out-of-memory is attributed to the in-flight input. Exploration. Tag-wrapped documents (42 tag numbers, 1..3 deep), nesting hidden inside byte strings, distinct-duplicate member names and error-path documents followed by ordinary ones are included; a hang that only shows after earlier inputs is replayed as a sequence in a fresh worker. Declared lengths that wrap around when converted or added, and documents with two members changed at once, are enumerated.",
             "TotalAlloc is process-wide: the worker runs one goroutine, GC workers do not allocate heap objects. The wall bound is only reported after 4 measurements (3 in fresh processes).",
             "DESIGN.md §4 C06"),
     "C07": ("rapid over profile-claim classes x formats x registered-profile subsets (checkpoint hook), tokens from an independent CBOR encoder / own JSON writer; oracle = reference dispatcher + independent profile model of the selected profile",
@@ -35,7 +35,7 @@ CLAIMED = {
             "Key 265 carrying ''/null/undefined/non-text or the profile-1 name gets the weaker verdict 'error or identical to the token without key 265' (specifications silent).",
             "DESIGN.md §4 C07"),
     "C08": ("rapid: C01's valid and invalid claims-sets through all validating entry points, differential against Validate() and the non-validating sibling",
-            "Generated-input search: each generated claims-set (0..4 deviating claims) goes through SetClaims, validate-and-encode CBOR/JSON, ValidateAndSign and the decode-and-validate variants (CBOR, JSON, COSE); a gate must fail iff Validate() fails (and iff the model says invalid), emit/attach nothing on failure, and equal its non-validating sibling on success. A second test exercises the gates in context (Evidence with a past, in-place flips of validity between two gate calls, repeated calls); decode gates also see re-wrapped inputs (tags, unknown keys); instances of a registered extension profile whose own rule is met or broken go through every gate; results are re-checked after unrelated encodes.",
+            "Generated-input search: each generated claims-set (0..4 deviating claims) goes through SetClaims, validate-and-encode CBOR/JSON, ValidateAndSign and the decode-and-validate variants (CBOR, JSON, COSE); a gate must fail iff Validate() fails (and iff the model says invalid), emit/attach nothing on failure, and equal its non-validating sibling on success. A second test exercises the gates in context (Evidence with a past, in-place flips of validity between two gate calls, repeated calls); decode gates also see re-wrapped inputs (tags, unknown keys); instances of a registered extension profile whose own rule is met or broken go through every gate; results are re-checked after unrelated encodes. Caller-supplied signers for unnamed algorithms and payloads with text / extreme / duplicated labels go through the sign and decode gates.",
             "Trusts the profile model for the iff direction; bytes for decode gates come from the library's non-validating encoder or the independent encoder.",
             "DESIGN.md §4 C08"),
     "C09": ("rapid round trips (valid sets of both profiles and extension profiles, decodable-but-invalid tokens): observation equality + byte stability",
@@ -43,7 +43,7 @@ CLAIMED = {
             "Observation = all getters + component getters + validity; trusts those getters to expose all claim state.",
             "DESIGN.md §4 C09"),
     "C10": ("rapid: emitted CBOR parsed by an independent strict CBOR reader and compared with the model's expected wire map",
-            "Generated-input search: for valid sets built through setters and obtained by decoding (permuted keys, extra keys, no-measurements form) the emitted bytes must be one definite-length map, no duplicates, nothing trailing, exactly the expected integer keys with exact types and values, single nonce bare, never list+flag. Decoded tokens carry unknown keys inside component maps; a decoded component may be updated in place before encoding; lists of 23..256 components and texts of 23..257 bytes occur. Further routes: claims decoded from JSON with null / unknown members and 64-bit flag values; the same component object listed at several positions.",
+            "Generated-input search: for valid sets built through setters and obtained by decoding (permuted keys, extra keys, no-measurements form) the emitted bytes must be one definite-length map, no duplicates, nothing trailing, exactly the expected integer keys with exact types and values, single nonce bare, never list+flag. Decoded tokens carry unknown keys inside component maps; a decoded component may be updated in place before encoding; lists of 23..256 components and texts of 23..257 bytes occur. Further routes: claims decoded from JSON with null / unknown members and 64-bit flag values; the same component object listed at several positions. Refused setter calls may come between building and encoding.",
             "Trusts the independent reader and the model's key table (taken from the property statement).",
             "DESIGN.md §4 C10"),
     "C11": ("exhaustive setter sweeps (lengths 0..80, cert-ref edit neighbourhood) + rapid state machine of 1..40 setter calls against a reference model",
@@ -59,23 +59,23 @@ CLAIMED = {
             "Three ambiguous cells (empty-but-present list, empty nonce container) accept either of two classes, see DESIGN.md.",
             "DESIGN.md §4 C13"),
     "C14": ("exhaustive enumeration of all 65 536 lifecycle values against a table oracle",
-            "Every uint16 value is pushed through LifeCycleToState, IsValid, ValidateSecurityLifeCycle, both profiles' setter/getter (setter and struct-literal routes) and CBOR decode-and-validate, compared with a table oracle; state names compared with the specified strings. The input space is finite and enumerated completely (exhaustive: true). Setters are also run on claims-sets already holding the same / a valid / an invalid value, and the invalid state must be the StateInvalid constant itself.",
+            "Every uint16 value is pushed through LifeCycleToState, IsValid, ValidateSecurityLifeCycle, both profiles' setter/getter (setter and struct-literal routes) and CBOR decode-and-validate, compared with a table oracle; state names compared with the specified strings. The input space is finite and enumerated completely (exhaustive: true). Setters are also run on claims-sets already holding the same / a valid / an invalid value, and the invalid state must be the StateInvalid constant itself. Setters and getters are also swept on zero-value objects, objects with an absent or foreign profile claim and instances of derived profiles.",
             "Trusts the seven-range table written from the property statement.",
             "DESIGN.md §4 C14"),
     "C15": ("rapid over a hand-declared shape family with hand-written expectations + enumeration of reflect.StructOf sizes around header boundaries + extension-profile round trips; independent CBOR reader, plain-codec differential",
-            "Generated-input search: eight struct shapes (flat, 1- and 2-level embedded, embedded interface with pointer/nil, empty, all-optional) x random values x optional subsets; every entry count 0..257 and 65535/65536(/65537/70000) of synthetic structs; extension profiles on both base profiles. The serialised map must equal the hand-written union in declaration order with a correct header, populate must reproduce the value, match the plain marshaller for shapes without embedding, be byte-stable, and fail on a missing non-optional or duplicate key. Duplicate keys are tried in definite, indefinite, tagged and duplicate-first forms; a fourth test runs populate histories with unknown entries that other shapes know (no state may carry over between calls). Ten shapes (adds an interface holding a struct by value and member names differing only by case); the six extension styles replace the two extension profiles.",
+            "Generated-input search: twelve struct shapes (flat, 1- and 2-level embedded, embedded interface with pointer/value/nil, empty, all-optional, case-fold names, unexported embedded type, tag option order) x random values x optional subsets; every entry count 0..257 and 65535/65536(/65537/70000) of synthetic structs; extension profiles on both base profiles. The serialised map must equal the hand-written union in declaration order with a correct header, populate must reproduce the value, match the plain marshaller for shapes without embedding, be byte-stable, and fail on a missing non-optional or duplicate key. Duplicate keys are tried in definite, indefinite, tagged and duplicate-first forms; a fourth test runs populate histories with unknown entries that other shapes know (no state may carry over between calls). Ten shapes (adds an interface holding a struct by value and member names differing only by case); the six extension styles replace the two extension profiles.",
             "Shapes stay inside the claims convention (see DESIGN.md S-notes: no embedded pointer-to-struct, no empty non-nil slices under omitempty).",
             "DESIGN.md §4 C15"),
     "C16": ("rapid state machine over the global profile register (checkpoint hook gives every history the pristine register) against a model register; probe battery + deep fingerprints of every instance",
-            "Generated histories (1..30 steps) of Register(new / existing / unregistrable shape), NewClaims, CBOR/JSON decode repeated 32x, in-place mutation of one instance (setters, exported pointers and slices, returned components, container) and probes, with 0..8 extra profiles of three shapes (sharing eat-profile, sharing psa-profile, own JSON member). After every registration the full battery of lookups for 12 names must equal the model's expectation (so a failed registration changes nothing and a successful one changes only the new name); every instance must equal the first one obtained the same way, be a distinct object, and stay unchanged while other instances are mutated; repeated JSON dispatch must give one outcome. Documents naming two registered profiles, or an unregistered name under a single member, must be rejected on each of 32 calls. Profiles are registered as comparable structs, structs with func/slice fields and pointers (a panic is reported as such); bystander documents declaring a built-in profile must decode identically under every register content.",
+            "Generated histories (1..30 steps) of Register(new / existing / unregistrable shape), NewClaims, CBOR/JSON decode repeated 32x, in-place mutation of one instance (setters, exported pointers and slices, returned components, container) and probes, with 0..8 extra profiles of three shapes (sharing eat-profile, sharing psa-profile, own JSON member). After every registration the full battery of lookups for 12 names must equal the model's expectation (so a failed registration changes nothing and a successful one changes only the new name); every instance must equal the first one obtained the same way, be a distinct object, and stay unchanged while other instances are mutated; repeated JSON dispatch must give one outcome. Documents naming two registered profiles, or an unregistered name under a single member, must be rejected on each of 32 calls. Profiles are registered as comparable structs, structs with func/slice fields and pointers (a panic is reported as such); bystander documents declaring a built-in profile must decode identically under every register content. Registration from inside a profile's factory and a claims type with two sibling embedded structs are part of the histories.",
             "Hook: VerifCheckpointProfiles (build tag verif) only snapshots/restores the register map; the register itself is exercised through the public API.",
             "DESIGN.md §4 C16"),
     "C17": ("rapid-generated concurrent programs (16..48 goroutines over shared claims-sets / Evidence / buffers) in a -race binary; oracle = race detector log + equality with a sequential run of the same scripts on a fresh pool",
-            "Generated schedules (sampled, not enumerated): each program is a pool of shared objects and per-goroutine scripts of 10..60 read-side operations (create, decode CBOR/JSON/COSE, validate, getters, encode, MarshalJSON, Verify on shared objects; Sign/ValidateAndSign on private Evidence with shared claims; setters and codec helpers on private objects) started behind a barrier with GOMAXPROCS=16. Any race-detector report, or any operation whose result differs from the sequential reference, is a violation. The race detector flags conflicting unsynchronised accesses whenever both execute, independent of timing luck, which makes sampling effective for the realistic regressions (package-level cache, lazy initialisation, in-place normalisation through a pointer receiver). The concurrent run comes before the sequential reference; operations include extension-profile decodes, decodes that fail inside the helpers, and a synthetic struct type unique to each program (cold caches). Private objects are re-used as decode destinations after setter calls; shared Evidence includes envelopes without algorithm / with key ids and extra parameters.",
+            "Generated schedules (sampled, not enumerated): each program is a pool of shared objects and per-goroutine scripts of 10..60 read-side operations (create, decode CBOR/JSON/COSE, validate, getters, encode, MarshalJSON, Verify on shared objects; Sign/ValidateAndSign on private Evidence with shared claims; setters and codec helpers on private objects) started behind a barrier with GOMAXPROCS=16. Any race-detector report, or any operation whose result differs from the sequential reference, is a violation. The race detector flags conflicting unsynchronised accesses whenever both execute, independent of timing luck, which makes sampling effective for the realistic regressions (package-level cache, lazy initialisation, in-place normalisation through a pointer receiver). The concurrent run comes before the sequential reference; operations include extension-profile decodes, decodes that fail inside the helpers, and a synthetic struct type unique to each program (cold caches). Private objects are re-used as decode destinations after setter calls; shared Evidence includes envelopes without algorithm / with key ids and extra parameters. Duplicate-key tokens, long validating decodes, DER-signature Evidence and steps touching every shared object are in the mix.",
             "The Go scheduler owns the interleaving: a race needing a rare schedule can be missed, and a reported race may not reproduce from the saved program (the detector's report is saved as the replay then). Registration is not part of the mix (the register is only read).",
             "DESIGN.md §4 C17"),
     "C18": ("rapid sequences of read-side calls with a reflect-based deep fingerprint before/after every call + repeat-equality; input-buffer scribbling and cross-instance mutation for aliasing",
-            "Generated histories: subjects of seven kinds (literal, setters, decoded from CBOR/JSON, extension instance, decoded and freshly signed Evidence; valid or deviating) x 1..30 random read-side calls; after each call the deep fingerprint of everything reachable (exported fields, pointers, slices, component container) must be unchanged and an immediate repeat must return the identical result; decoding from a private buffer that is then overwritten (0x00/0xff/noise) must change no getter, encoding or Verify outcome, the decoder must not write to its input, and a second instance decoded from the same bytes must be unaffected by writes into the first instance's returned slices. Results handed out earlier must keep their content while other objects are encoded; Verify outcomes must equal 'key is the signer's' whatever was verified before; the first reads of a decoded subject are compared with what it was built from. Subjects include setter-built sets with non-UTF-8 free text and decoded Evidence whose envelopes carry key ids and further header parameters.",
+            "Generated histories: subjects of seven kinds (literal, setters, decoded from CBOR/JSON, extension instance, decoded and freshly signed Evidence; valid or deviating) x 1..30 random read-side calls; after each call the deep fingerprint of everything reachable (exported fields, pointers, slices, component container) must be unchanged and an immediate repeat must return the identical result; decoding from a private buffer that is then overwritten (0x00/0xff/noise) must change no getter, encoding or Verify outcome, the decoder must not write to its input, and a second instance decoded from the same bytes must be unaffected by writes into the first instance's returned slices. Results handed out earlier must keep their content while other objects are encoded; Verify outcomes must equal 'key is the signer's' whatever was verified before; the first reads of a decoded subject are compared with what it was built from. Subjects include setter-built sets with non-UTF-8 free text and decoded Evidence whose envelopes carry key ids and further header parameters. Subjects include nonce arrays of identical values and an extension with a pointer-embedded optional group.",
             "The COSE message inside an Evidence is unexported: only its behaviour (Verify outcomes, MarshalJSON) is required to be stable; a change confined to it is recorded as a class, not a violation.",
             "DESIGN.md §4 C18"),
     "C19": ("rapid state machine over one Evidence with injected signer faults, against a reference model of the envelope/claims binding",
@@ -83,7 +83,7 @@ CLAIMED = {
             "Trusts the independent splitter for 'the payload the signature covers' and by-construction knowledge of which key verifies which token.",
             "DESIGN.md §4 C19"),
     "C20": ("enumerated envelope grid built with an independent CBOR/COSE encoder; independent well-formedness classifier as oracle",
-            "Enumeration of structurally mutated envelopes around correctly signed material (tags none/0..30/61/98/nested, array lengths 0..6, each element replaced by 20 other items and by indefinite / long-head forms, 18 payload variants, trailing bytes, TF-M Mac0/Sign1 vectors): decoding may succeed only if the independent classifier sees a tag-18 4-array bstr/map/bstr(map)/non-empty bstr with nothing after it. Every envelope is also given to Evidence objects with a past (decoded / attached / signed, optionally followed by a failed decode); tagged non-map payloads, tag numbers congruent to 18 mod 256 and tag 18 inside other tags are covered; thorough adds a fuzz target. The correct envelope in 13 text transport encodings and 14 content-type / typ header values x 6 non-map payloads are enumerated.",
+            "Enumeration of structurally mutated envelopes around correctly signed material (tags none/0..30/61/98/nested, array lengths 0..6, each element replaced by 20 other items and by indefinite / long-head forms, 18 payload variants, trailing bytes, TF-M Mac0/Sign1 vectors): decoding may succeed only if the independent classifier sees a tag-18 4-array bstr/map/bstr(map)/non-empty bstr with nothing after it. Every envelope is also given to Evidence objects with a past (decoded / attached / signed, optionally followed by a failed decode); tagged non-map payloads, tag numbers congruent to 18 mod 256 and tag 18 inside other tags are covered; thorough adds a fuzz target. The correct envelope in 13 text transport encodings and 14 content-type / typ header values x 6 non-map payloads are enumerated. Well-formed messages of the other COSE kinds (Sign, Mac0, Mac, Encrypt0, Encrypt) are enumerated under 8 tags.",
             "Only the 'only' direction is judged (acceptance of valid material is C03); tagged payload items carry no verdict.",
             "DESIGN.md §4 C20"),
 }
